@@ -115,7 +115,7 @@ def _assign_case(seed):
     gi = H.gene_info_of(isoforms, params.delta)
     tid, strand, exons = rng.choice(isoforms)
     kind = rng.choice(["exact", "truncated", "jitter", "intron_retention", "skipped_exon", "novel_exon", "partial_intron_retention",
-                       "distant_5p_end"])
+                       "distant_5p_end", "novel_intron_in_exon"])
     if kind == "skipped_exon":
         big = [i for i in range(1, len(exons) - 1) if exons[i][1] - exons[i][0] >= 150]
         if not big:
@@ -136,7 +136,7 @@ def _assign_case(seed):
     # a polyA tail at the read's 3' end (polyT head for a '-' isoform): documented as tolerated; it must not turn a distant 5' end or any
     # other structural difference into a consistent assignment either
     polya = (-1, -1, -1, -1)
-    tail = rng.random() < .5 and read is not None and kind in ("exact", "jitter", "distant_5p_end", "intron_retention", "skipped_exon", "novel_exon")
+    tail = rng.random() < .5 and read is not None and kind in ("exact", "jitter", "distant_5p_end", "intron_retention", "skipped_exon", "novel_exon", "novel_intron_in_exon")
     if tail:
         if strand == "+":
             polya = (read[-1][1] - rng.randint(0, 3), -1, -1, -1)
@@ -197,7 +197,7 @@ def replay_assign(d):
 @bounded("C01.assigner_end_to_end", ["C01"], shards=14, note="random genes (1-3 isoforms over a shared exon pool) and reads derived from an isoform: "
          "exact, truncated at either end, junctions jittered within delta -> the real LongReadAssigner must report a consistent type, the "
          "isoform among the matches when the read is full-length, and a unique assignment when it is the only isoform; reads with a "
-         "retained intron (>= 300 bp), >= 100 intronic bases retained at a read end, a 5' end 300-900 bp outside the isoform, a skipped exon (>= 150 bp) or an extra exon relative to the only isoform must never be consistent; "
+         "retained intron (>= 300 bp), >= 100 intronic bases retained at a read end, a 5' end 300-900 bp outside the isoform, an unannotated 70-200 bp intron inside an exon, a skipped exon (>= 150 bp) or an extra exon relative to the only isoform must never be consistent; "
          "all four matching presets; half of the full-length reads carry a polyA tail / polyT head at their 3' end")
 def c01_e2e(tier, rng):
     n = 1500 if tier == "quick" else 60000
@@ -320,3 +320,43 @@ def c01_presets(tier, rng):
                              "observed": str(got), "required": "documented tolerances"})
     return {"obligations": obl, "discharged": dis, "violations": viol, "cases": obl, "exhaustive": True, "bound": "4 presets x {default, --delta 3}",
             "samples": [{"preset": "default", "delta": 6}]}
+
+
+# ---- "suspicious" introns (tolerated as long deletions): only SHORT introns may be waved through ---------------------------------------------
+record("JCParams", {"max_suspicious_intron_abs_len": "int", "max_suspicious_intron_rel_len": "real"})
+record("JunctionComparator", {"params": "rec:JCParams"})
+native.RECORD_CLASSES["JunctionComparator"] = ("src/junction_comparator.py", "JunctionComparator")
+native.RECORD_CLASSES["JCParams"] = ("builtin", "namespace")
+CLASS_HOME["JunctionComparator"] = "src/junction_comparator.py"
+
+
+def _gen_susp(rng, n):
+    for _ in range(n):
+        k = rng.randint(1, 4)
+        p = rng.randint(1, 50)
+        start = p
+        introns = []
+        for _i in range(k):
+            a = p + rng.randint(20, 200)
+            b = a + rng.choice([5, 30, 59, 60, 61, 100, 700])
+            introns.append((a, b))
+            p = b
+        lo = rng.randint(0, k - 1)
+        yield {"self": {"__rec__": "JunctionComparator", "params": {"__rec__": "JCParams", "max_suspicious_intron_abs_len": rng.choice([0, 60]),
+                                                                    "max_suspicious_intron_rel_len": rng.choice([0.0, 1.0])}},
+               "read_region": (start, p + rng.randint(20, 200)), "read_junctions": introns, "read_cregion": (lo, rng.randint(lo, k - 1))}
+
+
+contract("src/junction_comparator.py:JunctionComparator.are_suspicious_introns",
+         {"self": "rec:JunctionComparator", "read_region": "tuple[int,int]", "read_junctions": "list[tuple[int,int]]", "read_cregion": "tuple[int,int]"},
+         returns="bool", props=["C01"],
+         requires=["0 <= read_cregion[0] <= read_cregion[1] < len(read_junctions)", "self.params.max_suspicious_intron_abs_len >= 0"],
+         # an unannotated intron may be read as an alignment artefact (and the read stay consistent) only if EVERY intron of the region is
+         # at most max_suspicious_intron_abs_len long: a long extra intron is a structural difference, whatever the flanking exons look like
+         ensures=["not result or all(read_junctions[c][1] - read_junctions[c][0] + 1 <= self.params.max_suspicious_intron_abs_len "
+                  "for c in range(read_cregion[0], read_cregion[1] + 1))"],
+         loops={0: {"inv": ["all(read_junctions[c][1] - read_junctions[c][0] + 1 <= self.params.max_suspicious_intron_abs_len "
+                            "for c in range(read_cregion[0], read_cregion[0] + _k0))"]},
+                1: {"inv": ["all(read_junctions[c][1] - read_junctions[c][0] + 1 <= self.params.max_suspicious_intron_abs_len "
+                            "for c in range(read_cregion[0], read_cregion[1] + 1))"]}},
+         gen=_gen_susp, canary="not result")
